@@ -21,7 +21,6 @@
 //@struct file=poly-commit/src/hyrax/data_structures.rs name=HyraxCommitmentState
 //@struct file=poly-commit/src/hyrax/data_structures.rs name=HyraxProof
 impl SerBytes for HyraxUniversalParams { uninterp spec fn ser_bytes(&self) -> Seq<u8>; }
-pub uninterp spec fn tensor_prime_spec(v: Seq<FS>) -> Seq<FS>;
 pub open spec fn mat_wf(m: &Matrix) -> bool { m.entries@.len() == m.n && forall|r: int| 0 <= r < m.n ==> (#[trigger] m.entries@[r])@.len() == m.m }
 impl Matrix {
 //@stub from=matrix.rs id=utils.Matrix.new_from_rows
@@ -64,7 +63,9 @@ pub open spec fn hyrax_commit_one(ck: &HyraxUniversalParams, p: &LabeledML, c: &
 pub open spec fn hyrax_draws(ps: Seq<&LabeledML>, k: nat) -> nat decreases k { if k == 0 { 0 } else { hyrax_draws(ps, (k - 1) as nat) + vstd::arithmetic::power2::pow2((ps[k - 1].polynomial.num_vars / 2) as nat) } }
 pub open spec fn hyrax_admissible(ck: &HyraxUniversalParams, p: &LabeledML) -> bool { p.polynomial.num_vars % 2 == 0 && p.polynomial.num_vars <= ck.com_key@.len() }
 
-#[verifier::external_body] pub fn tensor_prime(values: &[Fr]) -> (r: Vec<Fr>) ensures fviews(r@) == tensor_prime_spec(fviews(values@)), r@.len() == vstd::arithmetic::power2::pow2(values@.len()) { unimplemented!() }
+//@stub from=hyrax.rs id=hyrax.tensor_prime vis=pub
+#[verifier::external_body] pub fn vec_one1() -> (r: Vec<Fr>) ensures r@.len() == 1, r@[0]@ == f_one() { unimplemented!() }
+#[verifier::external_body] pub fn slice_from1(v: &[Fr]) -> (r: &[Fr]) requires v@.len() >= 1 ensures r@ == v@.subrange(1, v@.len() as int) { unimplemented!() }
 #[verifier::external_body] pub fn string_ne(a: &String, b: &String) -> (r: bool) ensures r == (*a != *b) { unimplemented!() }     // `a != b` on &String
 //@stub from=hyrax.rs id=utils.inner_product
 //@stub from=matrix.rs id=utils.vector_sum
